@@ -71,6 +71,8 @@ MEASURED = [
     ('generate', 'M2', ['d', 'Y'], True), ('generate', 'M1', ['d', 'S'], True),
     ('compute', 'M1', 0, []), ('compute', 'M1', 2, []), ('compute', 'M2', 5, []), ('compute', 'M1', 1, [0]),
     ('compute', 'M1', 1, [5, 0]), ('compute', 'M2', 2, [5]), ('compute', 'M1', 0, [2]),
+    # the SAME batch index computed before on the same handler (a recomputation must not see a consumed generator)
+    ('compute', 'M1', 1, [1]), ('compute', 'M1', 0, [0, 0]), ('compute', 'M2', 2, [2]), ('compute', 'M1', 2, [2, 5, 2]),
     ('rejection', 'M1'), ('rejection', 'M2'), ('smc',),
 ]
 
